@@ -694,7 +694,11 @@ namespace bluetoe
                         const_cast< std::uint8_t* >( trans.buffer )[ 0 ] = trans.buffer[ 0 ] & ~more_data_flag;
 
                         if ( trans.buffer[ 1 ] != 0 )
+                        {
                             events_.last_transmitted_not_empty = true;
+                            // this is the only PDU of the connection event, it can not be acknowledged before the next event
+                            events_.unacknowledged_data = true;
+                        }
 
                         Hardware::configure_final_transmit( trans );
                         state_   = state::evt_transmiting_closing;
